@@ -449,3 +449,28 @@ func jsonOf(v any) string {
 	b, _ := json.Marshal(v)
 	return string(b)
 }
+
+// ---------------------------------------------------------------------------------------------------------------------
+// C13c: the launch list after truncation (the same generator and oracle as C19b, judged here for the clause "its
+// instance-type list is a subset of the scheduler's options that still meets every minValues floor under the strict
+// policy"; the drawn scenarios always carry a minValues floor)
+// ---------------------------------------------------------------------------------------------------------------------
+
+func drawC13c(t *rapid.T) *c19bScenario {
+	s := drawC19b(t)
+	if s.MinKey == "" {
+		s.MinKey = corev1.LabelInstanceTypeStable
+		s.MinValues = rapid.IntRange(1, 4).Draw(t, "c13cMinValues")
+	}
+	return s
+}
+
+var propC13c = ev.Prop[c19bScenario]{
+	ID: "C13", Test: "TestC13c",
+	Rule: "the Truncate scenarios of C19b, always with a minValues floor on instance-type or family: catalog of 1-9 types with tied / inverted prices and unavailable offerings, zone / capacity-type requirements, maxItems 1-6, both minValues policies; InstanceTypes.Truncate runs on a shuffled copy; " +
+		"oracle: the result is a duplicate-free subset of the options, under the strict policy it still holds the floor's number of distinct values, and an error is returned iff the cheapest prefix cannot hold it; non-trivial = truncation dropped at least one type",
+	Assumptions: []string{"price ties may be broken either way"},
+	Draw:        drawC13c, Exec: execC19b,
+}
+
+func TestC13c(t *testing.T) { ev.Run(t, propC13c) }
